@@ -79,12 +79,15 @@ TEXTS = {
                             "read records 'invalid encoding' at the byte's position exactly when the decoder returns the one-byte error rune and AllowInvalidUTF8 is off, never when it is on; offsets advance by the decoded width; the any matcher consumes an invalid byte; values are input slices. "
                             "The decoder model is tied to utf8.DecodeRune through the malformed-input stream."),
                 level_note=RT_NOTE),
-    "C07": dict(technique="Lean model of the analysis + independent Lean specification, differential against the real ast/builder code; kernel-checked witnesses",
+    "C07": dict(technique="Lean 4 theorems (nullable analysis sound w.r.t. the runtime model; well-formed grammars terminate) + Lean model of the analysis and independent specification, differential against the real ast/builder code; kernel-checked witnesses",
                 design_ref="DESIGN.md §5 C07", engine="lean-mid",
-                level_text=("The real analysis (ast.NullableVisit/InitialNames, builder.ComputeLeftRecursives, called in-process with chosen visiting orders) is compared node by node (every Nullable flag, first graph, left-recursive set, leader, verdict) with the Lean model Mid, "
+                level_text=("Consequence clause, kernel-checked for the runtime model (Proofs/Advance.lean, Proofs/WFTerm.lean): C07_nullable_sound — for every grammar, code environment, input and depth a successful evaluation never moves backwards and an expression that succeeds without consuming is nullable in the sense of the static analysis; "
+                            "C07_no_same_position_cycle_terminates — a grammar whose first graph (rule -> rules its body can invoke before consuming) has no cycle (ranking witness), with repetitions over non-nullable bodies and no throw/recover, terminates on every input from every state without any budget: the generated parser cannot recurse without bound. The hypothesis is decided by an executable checker whose verdict is proved sound (checkWFG_sound); "
+                            "the check runs it on the generated runtime-termination cases (how many it accepts is in the evidence) and every such case is executed on the real runtime, where a crash or timeout is a violation. "
+                            "Detection clause: the real analysis (ast.NullableVisit/InitialNames, builder.ComputeLeftRecursives, called in-process with chosen visiting orders) is compared node by node (every Nullable flag, first graph, left-recursive set, leader, verdict) with the Lean model Mid, "
                             "and its verdict with the independent Ford-style specification Mid.Spec.leftRec on generated grammars; every discrepancy is classified by which uncommitted repair of the model removes it (known findings D17, D18; D9 listed). "
-                            "Kernel-checked: the witnesses of the four repaired defects (accepted/falsely rejected before, decided like the specification now), the D17 witness and its would-be repair, direct left recursion is always seen. The general theorem detect = specification is not proved (false for the unchanged tree)."),
-                level_note=("Trusted: Lean kernel; Model/Mid.lean tied to the code by the mid stream; the specification is for grammars without throw/recover; the dynamic half of C07 (no same-position re-entry at run time for accepted grammars) is not decided here beyond the runtime budget/termination results of C16.")),
+                            "Kernel-checked: the witnesses of the four repaired defects, the D17 witness and its would-be repair, direct left recursion is always seen. The general theorem detect = specification is not proved (false for the unchanged tree)."),
+                level_note=("Trusted: Lean kernel; Model/Runtime.lean tied to the emitted runtime by the H1 streams and Model/Mid.lean tied to the analysis by the mid stream; that the builder's verdict 'accepted' implies the theorem's ranking hypothesis is NOT proved (it is false where D17/D9 apply) — the link is the correspondence of verdicts with the specification; the specification is for grammars without throw/recover.")),
     "C19": dict(technique="Lean theorem (visiting order is a function of the name set) + repeated in-process and fresh-process generation",
                 design_ref="DESIGN.md §5 C19", engine="lean-mid",
                 level_text=("Kernel-checked: sorting any permutation of the rule names yields the same list (C19_sorted_order_invariant), hence the repaired analysis computes the same flags, first graph, left-recursive set, leader and verdict for every map iteration order (C19_analysis_order_free); "
